@@ -39,7 +39,7 @@ Definition tpl_expression : list string := ["nested expressions cannot be genera
 
 "; "_result_%d"; "  %s := trace(""%s"",""%s"",%s,%s)"; "rego"; "$message"; "$message"; "message"; "  "; "msg_var_%d"; "  %s := object.get(%s, ""%s"", ""null"")"; "  message_vars := [%s]"; ","; "  message := sprintf(""%s"", message_vars)"; "  message := ""%s"""; "  %s := error(""%s"",%s, message ,[%s])"; ","; """"; "'"].
 Definition tpl_normalizer : list string := [""; "@graph"; "@id"; "@type"; "http://a.ml/vocabularies/document-source-maps#SourceMap"; "http://a.ml/vocabularies/document-source-maps#lexical"; "@ids"; "@types"; "@lexical"; "@id"; "http://a.ml/vocabularies/document-source-maps#element"; "http://a.ml/vocabularies/document-source-maps#value"; "range"; "uri"; "http://a.ml/vocabularies/document#BaseUnitSourceInformation"; "http://a.ml/vocabularies/document#rootLocation"; "http://a.ml/vocabularies/document#additionalLocations"; ""; "@id"; "http://a.ml/vocabularies/document#location"; "http://a.ml/vocabularies/document#elements"; "@id"].
-Definition tpl_iri_expander : list string := ["@"; "^[a-zA-Z-0-9\-]+\.[\.(\\/)a-zA-Z-0-9\-]+$"; "IRI %s is not in compact form"; "."; "\/"; "/"; "Term %s not present in context"].
+Definition tpl_iri_expander : list string := ["@"; "^[a-zA-Z-0-9\-_]+\.[\.(\\/)a-zA-Z-0-9\-_]+$"; "IRI %s is not in compact form"; "."; "\/"; "/"; "Term %s not present in context"].
 Definition tpl_quote : list string := ["\\"; "\"""; "\n"; "\r"; "\t"; "\u%04x"; """"; """"; ","; "set()"; "{ "; "}"; "["; "]"].
 Definition tpl_quote_all_literals : list string := ["'\\'"; "`\\`"; "'""'"; "`\""`"; "'\n'"; "`\n`"; "'\r'"; "`\r`"; "'\t'"; "`\t`"; "0x20"; "0x7f"; "`\u%04x`"].
 Definition tpl_message : list string := ["\{\{\s*([\w-]+\.[\w-]+)\s*}}"; "%"; "%%"; "%v"; "%"; "%%"].
